@@ -635,5 +635,5 @@ static void one_case(vh::Ctx & c, uint64_t idx)
 
 int main(int argc, char ** argv)
 {
-  return vh::run(argc, argv, "C17", {3000, 1000000}, one_case);
+  return vh::run(argc, argv, "C17", {30000, 1000000}, one_case);
 }
